@@ -224,3 +224,23 @@ Proof. intros H. unfold stored. now rewrite (decompose_conjuncts e d0 H). Qed.
 (* a label without a cost equation at its top level is stored conjunct for conjunct *)
 Corollary stored_rate_free e : accepted e = true -> forallb keeps (flat e) = true -> flat_all (stored e) = flat e.
 Proof. intros H K. rewrite (stored_conjuncts e H). now apply filter_all. Qed.
+
+(* ---- meaning: whatever the conjuncts mean, the stored invariant and the cost equations taken out say what the label says ---- *)
+Section Meaning.
+  Variable sem : lexp -> bool.                                   (* any interpretation of labels ... *)
+  Hypothesis sem_and : forall a b, sem (LAnd a b) = sem a && sem b.   (* ... that reads a conjunction as a conjunction *)
+
+  Lemma sem_flat e : sem e = forallb sem (flat e).
+  Proof. induction e; cbn [flat]; try (cbn; now rewrite andb_true_r). rewrite sem_and, forallb_app, IHe1, IHe2. reflexivity. Qed.
+  Lemma sem_flat_all l : forallb sem (flat_all l) = forallb sem l.
+  Proof. induction l as [|e l IH]; [reflexivity|]. unfold flat_all in *. cbn. rewrite forallb_app, IH, <- sem_flat. reflexivity. Qed.
+  Lemma forallb_split {A} (p f : A -> bool) l : forallb f l = forallb f (filter p l) && forallb f (filter (fun x => negb (p x)) l).
+  Proof. induction l as [|x l IH]; [reflexivity|]. cbn. destruct (p x); cbn; rewrite IH; destruct (f x); cbn; auto using andb_comm. now rewrite andb_false_r. Qed.
+
+  Theorem stored_meaning e : accepted e = true ->
+    forallb sem (stored e) && forallb sem (filter is_cost_rate (flat e)) = sem e.
+  Proof.
+    intro H. rewrite <- sem_flat_all, (stored_conjuncts e H), (sem_flat e), (forallb_split keeps sem (flat e)). f_equal.
+    apply f_equal. apply filter_ext. intro x. unfold keeps. now rewrite negb_involutive.
+  Qed.
+End Meaning.
